@@ -4,6 +4,7 @@ import (
 	"fmt"
 	"math/rand/v2"
 	"sort"
+	"strconv"
 	"strings"
 
 	"pvharness/pvcase"
@@ -312,7 +313,9 @@ func (d *deriver) derive(gid int, profile string, base *pvcase.Case, k int, othe
 		c := base.Clone()
 		c.ID = uint64(gid)*1000 + uint64(i)
 		o := &c.Opts
-		o.Debug = false // debug prints, and to a shared stream
+		// Debug(true) prints its trace with fmt.Printf; the race host points os.Stdout at the null device before the
+		// first parse, so some of the concurrent parses run with it
+		o.Debug = !fl.Optimize && i > 0 && d.chance(0.2)
 		if i > 0 {
 			c.Input = d.mutate(base.Input, others)
 			maxBytes := maxInputBytes
@@ -384,11 +387,50 @@ func (d *deriver) derive(gid int, profile string, base *pvcase.Case, k int, othe
 
 		// the invariants promised above
 		if !(checked || pvterm.Budgeted(c)) ||
-			(base.Opts.MaxExpr > 0 && (o.MaxExpr == 0 || o.Memoize != base.Opts.Memoize)) ||
-			o.Debug {
+			(base.Opts.MaxExpr > 0 && (o.MaxExpr == 0 || o.Memoize != base.Opts.Memoize)) {
 			panic(fmt.Sprintf("pvconc: sibling %d of group %d leaves the termination class of its base", i, gid))
 		}
 		g.Cases = append(g.Cases, c)
 	}
 	return g, true
+}
+
+// deepDebugGroup is a hand-made group: S <- N !. ; N <- "(" N ")" / "x" on inputs nested 30 to 150 levels deep, every
+// parse with Debug(true). The trace indentation follows the nesting of the parse functions (several per rule level), so
+// these parses go far deeper than anything the random profiles produce: whatever the trace printer keeps between calls
+// is exercised by k goroutines at once.
+func deepDebugGroup(gid int, variant string, k int, r interface{ IntN(int) int }) (*group, error) {
+	fl, err := pvcase.ParseVariant(variant)
+	if err != nil {
+		return nil, err
+	}
+	lit := func(s string) *pvcase.Expr {
+		return &pvcase.Expr{Kind: pvcase.KLit, Runes: []rune(s), Want: strconv.Quote(s)}
+	}
+	ref := func(n string) *pvcase.Expr { return &pvcase.Expr{Kind: pvcase.KRef, Name: n} }
+	mk := func() *pvcase.Grammar {
+		g := &pvcase.Grammar{Rules: []*pvcase.Rule{
+			{Name: "S", Expr: &pvcase.Expr{Kind: pvcase.KSeq, Kids: []*pvcase.Expr{ref("N"),
+				{Kind: pvcase.KNot, Kids: []*pvcase.Expr{{Kind: pvcase.KAny}}}}}},
+			{Name: "N", Expr: &pvcase.Expr{Kind: pvcase.KCh, Line: 2, Col: 6, Kids: []*pvcase.Expr{
+				{Kind: pvcase.KSeq, Kids: []*pvcase.Expr{lit("("), ref("N"), lit(")")}}, lit("x")}}},
+		}}
+		id := 0
+		for _, rl := range g.Rules {
+			rl.Expr.Walk(func(e *pvcase.Expr) { id++; e.ID = id })
+		}
+		return g
+	}
+	g := &group{GID: gid, Profile: "deepdebug", Variant: variant}
+	for i := 0; i < k; i++ {
+		depth := 30 + r.IntN(120)
+		in := strings.Repeat("(", depth) + "x" + strings.Repeat(")", depth)
+		if i%4 == 3 {
+			in = in[:len(in)-1] // unbalanced: a failure deep down
+		}
+		c := &pvcase.Case{ID: uint64(gid)*1000 + uint64(i), Flags: fl, Opts: pvcase.DefaultOpts(), Fuel: 6000, Grammar: *mk(), Input: []byte(in)}
+		c.Opts.Debug = !fl.Optimize
+		g.Cases = append(g.Cases, c)
+	}
+	return g, nil
 }
